@@ -662,5 +662,8 @@ def run(tier):
     no_renegotiation_option(chk)
     fail_call_sites(chk)
     io_rules(chk)
+    # the closure / renegotiation processor is resumed when a record has been sent (engine I/O transition table, shared with C01 / C06)
+    from .. import engio as _engio
+    oblig.run_obligations(chk, _engio.progress_obligations())
     chk.floor('rule instances', len(chk.obls), 100)
     return chk.finish()
